@@ -30,6 +30,8 @@ Definition leaf_size_guard (l : leaf) : bool :=
   | LAudio n _ _ _ _ => lenN n =? 4
   | LColr ct _ _ _ _ _ => lenN ct =? 4
   | LSchm _ _ st _ _ => lenN st =? 4
+  (* readBoxSize is what the fields need: holds of an exact decoded senc whose data is written back *)
+  | LSenc _ _ raw rs np => rs =? 16 + (if np then lenN raw else 0)
   | _ => true
   end.
 
@@ -194,6 +196,11 @@ Proof.
   - (* clap *) lens. lia.
   - (* schm *) apply N.eqb_eq in G. cbn [size_leaf]. destruct (has flags 1); lens; lia.
   - (* cslg *) cbn [size_leaf]. destruct (version =? 0); cbn [negb]; lens; lia.
+  - (* senc *) destruct (negb notParsed && has flags 2 && (0 <? count)); [discriminate|]. injection Eb as <-.
+    apply N.eqb_eq in G. destruct notParsed; lens; lia.
+  - (* emsg *) cbn [size_leaf]. destruct (version =? 1); lens; lia.
+  - (* elng *) cbn [size_leaf chunk nth]. destruct missing; lens; lia.
+  - (* kind *) lens. lia.
 Qed.
 
 (* ---------------------------------------------------------------- header field of the written bytes *)
